@@ -312,6 +312,17 @@ def fake_open(file, mode="r", buffering=-1, *a, **kw):
         return WORLD.fds[file]
     if _is_virtual(file):
         return _vopen(file, mode, buffering, *a, **kw)
+    if isinstance(mode, str) and any(c in mode for c in "wax") and isinstance(file, (str, bytes)):
+        # a creating open of a path outside the simulated /dev, issued by the library under test (only changed libraries do
+        # that, e.g. a dispatch that hands any string to SCSIDevice(read_write=True)): it succeeds as it would on a real
+        # system, but on the null device, so that no stray file appears in the working directory of the check
+        try:
+            caller = sys._getframe(1).f_code.co_filename or ""
+        except ValueError:
+            caller = ""
+        if (os.sep + "pyscsi" + os.sep) in caller.replace("\\", os.sep):
+            WORLD.ev("vfs.open.stray", path=file if isinstance(file, str) else file.decode("utf-8", "replace"), mode=mode)
+            return _real_open(os.devnull, mode, buffering, *a, **kw)
     return _real_open(file, mode, buffering, *a, **kw)
 
 
